@@ -203,7 +203,12 @@ def natcmpStep (st : S) (toks : List String) (impl : String) : S × String × St
       let bs := strsUpTo alpha k
       let model := String.ofList (bs.map (fun b => match Mstr.compareNatural a b with | some c => relChar c | none => '?'))
       let spec := String.ofList (bs.map (fun b => relChar (Bytes.natCompare a b)))
-      ({ rows := st.rows.push (parseRel impl) }, model, verdict (spec == impl) s!"spec: {spec}")
+      let v :=
+        if spec == impl then "ok" else
+        match (bs.zip (spec.toList.zip impl.toList)).find? (fun p => p.2.1 != p.2.2) with
+        | some (b, sc, ic) => s!"bad a={fmtHex a} b={fmtHex b} impl={ic} spec={sc}"
+        | none => "bad row-length"
+      ({ rows := st.rows.push (parseRel impl) }, model, v)
     | _, _, _ => (st, "bad-op", "bad bad-op")
   | ["matrix"] => (st, "-", matrixCheck st.rows)
   | _ => (st, "bad-op", "bad bad-op")
